@@ -377,6 +377,7 @@ class CSSImportRule(cssrule.CSSRule):
 
     def _setName(self, name=''):
         """Raises xml.dom.SyntaxErr if name is not a string."""
+        self._checkReadonly()
         if name is None or isinstance(name, str):
             # "" or '' handled as None
             if not name:
